@@ -4487,6 +4487,128 @@ fn many_cases(thorough: bool) -> Vec<ManyCase> {
     out
 }
 
+// ---- what stands immediately BEFORE and AFTER the fences of an item ---------------------
+
+/// what precedes the opening fence of the wanted item when it is the FIRST item of the file (from byte 0)
+const BEFORE_FIRST: [&str; 9] = [
+    "opening-fence-at-byte-0-of-the-file", "only-a-single-LF-before", "only-a-single-CRLF-before", "only-a-single-CR-before", "heading-and-blank-line-before",
+    "only-a-BOM-before(unspecified)", "only-a-space-before(unspecified)", "only-a-tab-before(unspecified)", "prose-without-line-end-before(unspecified)",
+];
+/// what stands between the closing fence of the previous item and the opening fence of the wanted one
+const BEFORE_LATER: [&str; 9] = [
+    "closing-fence-of-previous-item-on-the-line-before", "previous-closing-fence+one-blank-line-LF", "previous-closing-fence+one-blank-line-CRLF", "previous-closing-fence+one-blank-line-CR", "prose-line-directly-before",
+    "BOM-at-line-start-before(unspecified)", "space-at-line-start-before(unspecified)", "tab-at-line-start-before(unspecified)", "prose-without-line-end-before(unspecified)",
+];
+const AFTER_FENCE: [&str; 5] = ["closing-fence-then-EOF-or-next-opening-fence-directly", "closing-fence+LF", "closing-fence+CRLF", "closing-fence+blank-line", "unterminated-at-EOF-or-prose-then-next-item"];
+const FENCE_POS: [&str; 3] = ["first-item", "middle-item", "last-item"];
+
+#[derive(Clone, Debug, Serialize, Deserialize)]
+struct FenceCase {
+    pos: u8,
+    before: u8,
+    after: u8,
+    xdg: bool,
+    crlf: bool,
+    body: u8,
+}
+
+fn check_fence_case(c: &FenceCase, rec: &mut Rec) -> CaseResult {
+    let prefix = format!("z{}", BIG_COUNTER.fetch_add(1, Ordering::Relaxed));
+    let nl = if c.crlf { "\r\n" } else { "\n" };
+    let (p, before, after) = (c.pos as usize % 3, c.before as usize % 9, c.after as usize % 5);
+    let lenient = before >= 5;
+    let sfx = ["one", "two", "three"];
+    let (wbody, wsteps) = size_bodies(c.body, nl);
+    let others: [(&str, Vec<(Prim, bool)>); 3] = [("helmert x=11", vec![(Prim::Helm(11), false)]), ("helmert x=12 | addone", vec![(Prim::Helm(12), false), (Prim::Add1, false)]), ("helmert x=13", vec![(Prim::Helm(13), false)])];
+    let mut text = String::new();
+    let mut items = vec![];
+    for k in 0..3usize {
+        // what precedes the opening fence
+        if k == p {
+            if k == 0 {
+                text.push_str(&["".to_string(), "\n".into(), "\r\n".into(), "\r".into(), format!("# Register {prefix}{nl}{nl}"), "\u{feff}".into(), " ".into(), "\t".into(), "See ".into()][before]);
+            } else {
+                // (the previous item ended with "```" and no line end)
+                text.push_str(nl);
+                text.push_str(&["".to_string(), "\n".into(), "\r\n".into(), "\r".into(), format!("Prose line about the next item.{nl}"), "\u{feff}".into(), " ".into(), "\t".into(), "See ".into()][before]);
+            }
+        } else if k == 0 {
+            text.push_str(&format!("# Register {prefix}{nl}{nl}"));
+        } else if k - 1 != p {
+            text.push_str(nl);
+            text.push_str(nl);
+        }
+        let at = text.len();
+        if k == p {
+            text.push_str(&format!("```geodesy:{}{nl}{wbody}", sfx[k]));
+            let last = k == 2;
+            match after {
+                0 => text.push_str(&format!("{nl}```{}", if last { "" } else { nl })),
+                1 => text.push_str(&format!("{nl}```\n")),
+                2 => text.push_str(&format!("{nl}```\r\n")),
+                3 => text.push_str(&format!("{nl}```{nl}{nl}")),
+                _ if last => {}
+                _ => text.push_str(&format!("{nl}```{nl}Prose about the next one, not ending in a line end before the blank line.{nl}{nl}")),
+            }
+            items.insert(0, ItemModel { suffix: sfx[k].into(), role: if k == 0 { BEFORE_FIRST[before] } else { BEFORE_LATER[before] }, steps: wsteps.clone(), body: lf(&wbody), range: (at, text.len()) });
+        } else {
+            text.push_str(&format!("```geodesy:{}{nl}{}{nl}```", sfx[k], others[k].0));
+            if k + 1 != p {
+                text.push_str(nl);
+            }
+            items.push(ItemModel { suffix: sfx[k].into(), role: "neighbour-of-the-item-with-the-special-neighbourhood", steps: others[k].1.clone(), body: others[k].0.into(), range: (at, text.len()) });
+        }
+    }
+    let what = format!(
+        "register {prefix}.md ({}), the whole file is {:?}; item `{}` is the {} of 3, before its opening fence: {}, after it: {}",
+        if c.crlf { "CR/LF" } else { "LF" }, text, sfx[p], FENCE_POS[p], if p == 0 { BEFORE_FIRST[before] } else { BEFORE_LATER[before] }, AFTER_FENCE[after]
+    );
+    rec.class(&format!("fence-before:{}/{}", FENCE_POS[p], if p == 0 { BEFORE_FIRST[before] } else { BEFORE_LATER[before] }));
+    rec.class(&format!("fence-after:{}/{}", FENCE_POS[p], AFTER_FENCE[after]));
+    rec.class(&format!("fence-neighbourhood:{}/{}", if c.xdg { "user-dir" } else { "cwd" }, if c.crlf { "CR/LF" } else { "LF" }));
+    if lenient {
+        // Something other than a line end directly in front of the fence: not documented either way. The
+        // item may be found or not; if it is found it must be the literal body (checked below)
+        let path = big_dir(c.xdg).join(format!("{prefix}.md"));
+        std::fs::write(&path, text.as_bytes()).unwrap_or_else(|e| panic!("size/position tree: cannot write {path:?}: {e}"));
+        let _file = TmpFile(path);
+        let mut ctx = AnyCtx::make(true, true);
+        let name = format!("{prefix}:{}", sfx[p]);
+        let r = guard(|| ctx.op(&name)).map_err(|pn| Failure { key: format!("panic-op@{}", pn.sig()), msg: format!("op({name:?}) panics: {} at {}:{}; {what}", pn.msg, pn.file, pn.line) })?;
+        if r.is_err() {
+            items.remove(0);
+            rec.count("unspecified_neighbourhood_item_not_found", 1);
+        } else {
+            rec.count("unspecified_neighbourhood_item_found", 1);
+        }
+    }
+    let absent = vec!["nosuch".to_string(), "on".into(), "tw".into(), "thre".into(), "onex".into(), "hree".into()];
+    let b = BuiltFile { file_name: format!("{prefix}.md"), text, items, absent, what };
+    check_built_file(&b, &prefix, c.xdg, "fence-neighbourhood", None, rec)?;
+    if !lenient {
+        rec.nontrivial(&(p, before, after, c.xdg, c.crlf));
+    }
+    Ok(())
+}
+
+fn fence_cases() -> Vec<FenceCase> {
+    let mut out = vec![];
+    let mut rot = 0u8;
+    for pos in 0..3u8 {
+        for before in 0..9u8 {
+            for after in 0..5u8 {
+                for xdg in [false, true] {
+                    for crlf in [false, true] {
+                        rot = rot.wrapping_add(1);
+                        out.push(FenceCase { pos, before, after, xdg, crlf, body: rot % 8 });
+                    }
+                }
+            }
+        }
+    }
+    out
+}
+
 // =====================================================================================
 // 8. main
 // =====================================================================================
@@ -4506,6 +4628,7 @@ fn main() {
     run.assume("a user constructor's refusal is handed back unchanged (same Error variant and payload, compared by Debug text) at top level, from a pipeline step and from a macro body: the library propagates construction errors with `?` and documents no wrapping");
     run.assume("registers and stand-alone resource files are read at every look-up (no documented caching; confirmed on the unchanged tree): a rewritten file is seen by the next look-up of every context, a removed one is gone; the search path elements ./geodesy and <data_local_dir>/geodesy need not exist when the context is created");
     run.assume("the documentation (Rumination 009, doc comments of Plain) states no limit on the size of a register or resource file, the number of items, the length of a line, the size of an item or the amount of prose, other fenced blocks and comments around and inside it: an item is found and is exactly the written body wherever it lies in a file of up to 6 MiB (quick) / 128 MiB (thorough); the filler never contains the tag line of the wanted item, three backticks inside a body, or the characters | < > and the word 'proj' inside a comment (tokenizer matters of C03/C16)");
+    run.assume("a register item's opening fence starts a line: at byte 0 of the file, after a single LF / CRLF / CR, or on the line after the previous item's closing fence (Rumination 009 shows fenced blocks only; no heading or blank line is required before them) it must be found; a fence with a BOM, a space, a tab or prose without a line end directly in front of it is not documented either way (found or not; if found, exactly the written body)");
     run.assume("per-tuple references: a tuple applied together with others (any order) must come out as when applied alone; all generated definitions are free of stack operators, so this is implied by the property (behaviour independent of anything applied before)");
 
     let items = file_item_cases();
@@ -4607,6 +4730,15 @@ fn main() {
         n_many,
         move |i| manies[i].clone(),
         check_many,
+    );
+    let fences = fence_cases();
+    let n_fences = fences.len();
+    run.enumerate(
+        "fence-neighbourhood",
+        "registers of three items in which what stands immediately BEFORE the opening fence and AFTER the closing fence of one item is enumerated: item {first, middle, last in the file} x before {first item: NOTHING (the fence is byte 0 of the file), only a single LF / CRLF / CR, heading + blank line; later items: the closing fence of the previous item on the line before (no blank line), one blank line made of LF / CRLF / CR, a prose line directly before; and, not documented either way, so only 'if found then exactly the written body': a BOM, a space, a tab, prose without a line end directly in front of the fence} x after {closing fence then end of file without line end (last item) / the next opening fence on the next line, closing fence + LF, + CRLF, + blank line, unterminated at end of file without line end (last item) / prose before the next item} x {./geodesy, $XDG_DATA_HOME/geodesy} x {LF, CR/LF file} with the body of the item rotating (one line, several lines, one step, three steps). Oracle as in file-size-and-item-position for all three items: found, behaviour (bitwise, both directions), steps() and params() of the literal body; truncated / extended names are errors; run-time registration takes precedence",
+        n_fences,
+        move |i| fences[i].clone(),
+        check_fence_case,
     );
     leave_big_tree();
 
